@@ -509,6 +509,62 @@ def _run(chk: Check):
                 pickles.append((pk, s1, desc))
             except Exception:  # noqa: BLE001
                 pass        # reported by (c)
+        # (h) collections whose metadata was resolved under a NON-default configuration ('auto' chunks under a small
+        # array.chunk-size) and random arrays of every kind: pickled here, loaded by the fresh interpreter under the default config
+        import dask as _dask
+        extra = []
+        with _dask.config.set({"array.chunk-size": "2KiB"}):
+            big = np.arange(40 * 100, dtype="float64").reshape(40, 100)
+            extra += [("from_array(auto)@2KiB", lambda: da.from_array(big, chunks="auto")),
+                      ("from_array(auto)+1@2KiB", lambda: da.from_array(big, chunks="auto")[5:, ::2] + 1),
+                      ("arange(auto)@2KiB", lambda: da.arange(3000, chunks="auto") * 2),
+                      ("ones(auto)@2KiB", lambda: da.ones((50, 60), chunks="auto").sum(axis=0))]
+            for label, mk in extra:
+                try:
+                    with warnings.catch_warnings():
+                        warnings.simplefilter("ignore")
+                        x = mk()
+                        s1 = summary(x)
+                        pk = os.path.join(d, f"h{len(pickles)}.pkl")
+                        with open(pk, "wb") as f:
+                            cloudpickle.dump(x, f)
+                        progs.dump_case(pk[:-4] + ".py", ("ones", (1,), ((1,),)), [])
+                    pickles.append((pk, s1, {"program": label}))
+                    chk.case(("pickle-under-config", label), nontrivial=True)
+                    chk.count("pickle:non-default-config")
+                except Exception as e:  # noqa: BLE001
+                    chk.count("pickle:non-default-config:skipped:" + type(e).__name__)
+        rnd = []
+        for seedv in (11, 12):
+            g, rs = da.random.default_rng(seedv), da.random.RandomState(seedv)
+            rnd += [("Generator.normal", g.normal(1.0, 2.0, size=(6, 4), chunks=(3, 2))), ("Generator.poisson", g.poisson(3.0, size=(8,), chunks=3)),
+                    ("Generator.random", g.random((6,), chunks=2)), ("Generator.uniform", g.uniform(size=(5,), chunks=2)),
+                    ("Generator.integers", g.integers(0, 9, size=(7,), chunks=3)), ("Generator.choice", g.choice(10, size=(8,), chunks=4)),
+                    ("RandomState.normal", rs.normal(size=(6,), chunks=3)), ("RandomState.poisson", rs.poisson(2.0, size=(6,), chunks=2)),
+                    ("RandomState.random_sample", rs.random_sample((5,), chunks=2)), ("derived", g.normal(size=(6,), chunks=3).cumsum(axis=0) * 2)]
+        for label, x in rnd:
+            chk.count("pickle:random")
+            chk.case(("pickle-random", label, x.name), nontrivial=True)
+            try:
+                with warnings.catch_warnings():
+                    warnings.simplefilter("ignore")
+                    s1 = summary(x)
+                    blob = cloudpickle.dumps(x)
+                    s3 = summary(cloudpickle.loads(blob))
+                    pk = os.path.join(d, f"h{len(pickles)}.pkl")
+                    open(pk, "wb").write(blob)
+                    progs.dump_case(pk[:-4] + ".py", ("ones", (1,), ((1,),)), [])
+            except Exception as e:  # noqa: BLE001
+                chk.violation(f"cloudpickle round trip of a random array ({label}) raises {type(e).__name__}: {str(e)[:100]}", {"program": label},
+                              signature={"class": "pickle-raises", "module": "cloudpickle", "error": type(e).__name__})
+                continue
+            diff = [k for k in s1 if not k.startswith("_") and s1[k] != s3[k]]
+            if diff:
+                chk.violation(f"cloudpickle round trip of a random array ({label}) changes " + ", ".join(diff), {"program": label, "before": s1, "after": s3},
+                              signature={"class": "pickle", "fields": diff, "random": label.split(".")[0]})
+            else:
+                chk.traces_validated += 1
+            pickles.append((pk, s1, {"program": "random:" + label}))
         chk.extra["t_main"] = round(time.time() - t0, 1)
         nodes.finish()
         chk.extra["t_nodes_coq"] = round(time.time() - t0, 1)
